@@ -103,6 +103,11 @@ def run(rep, ctx, tier):
         return
     ok, detail = query_set_pairing_mir(ctx, b)
     rep.add("R1", "evaluate_query_set:pairing", ok, detail, b.span)
+    # R17: if evaluate_query_set (or what it calls) looks polynomials up by binary search, what it searches is sorted
+    from ..rules import sorted as R17
+    n_sites, _ = R17.run(rep, ctx, f.closure([b.id], None), "R17")
+    rep.add("R17", "evaluate_query_set:lookups", True, "%d binary-search lookup(s) in evaluate_query_set and its callees, "
+            "each reported on its own (today the lookup goes through an ordered map)" % n_sites, b.span, nontrivial=False)
 
 
 CARRY = ("clone", "to_owned", "borrow", "as_ref", "deref", "into", "copied", "cloned", "to_string")
